@@ -1,3 +1,8 @@
 pub mod text;
 pub mod numeric_gates;
 pub mod numeric_waveforms;
+pub mod analysis_ast;
+pub mod analysis_extern;
+pub mod analysis_instr;
+pub mod seq_gen;
+pub mod sched_prog;
